@@ -31,6 +31,11 @@ def make_class(base, spec):
         if c == 'raises':
             raise RuntimeError('condition failed')
         return TRUTHY[c] if c in TRUTHY else FALSY[c]
+    if spec['cond'] == 'default':
+        # no condition of its own: the outcome is the `activate` keyword (delegating keeps the object observable)
+        def condition(self, *a, **k):
+            LAST['obj'] = self
+            return base.condition(self, *a, **k)
     attrs['condition'] = condition
     return type('gen_fb', (base,), attrs)
 
@@ -52,6 +57,8 @@ def creation(spec):
         kw['else_message'] = 'explicit else'
     if spec['delay']:
         kw['delay_condition'] = True
+    if spec.get('activate') is not None:
+        kw['activate'] = spec['activate']
     LAST.clear()
     raised = None
     obj = None
@@ -221,6 +228,9 @@ def overrides(case):
 
     class D(A):
         muted = True
+    # two different classes may carry one name (the same feedback name defined in two instructor modules)
+    D.__name__ = B.__name__
+    D.__qualname__ = B.__qualname__
     classes = [Feedback, A, B, C, D]
     saved = {f: Feedback.__dict__.get(f, '__absent__') for f in FIELDS}
 
